@@ -30,7 +30,7 @@ import (
 
 func init() {
 	runners["C11"] = runSrv4
-	runners["C13"] = runSrv4
+	runners["C13"] = func(c *Ctx) { runSrv4(c); rule := c.Extra["rule"]; runSrv6(c); c.Extra["rule"] = fmt.Sprint(rule) + " || DHCPv6: " + fmt.Sprint(c.Extra["rule"]) }
 	runners["C15"] = runSrv4
 }
 
